@@ -36,10 +36,23 @@ BYTECODE = ['fill', 'zero', 'zerountil', 'byte', '2byte', '4byte', '8byte', 'cst
 PREPROC = ['include', 'require', 'create_memzone', 'define', 'if', 'elif', 'else', 'endif', 'ifdef', 'ifndef', 'mute', 'unmute', 'emit']
 
 
+# size: names of ten and more characters that extend a short name of the same vocabulary (lengths compare as numbers: 12 > 3)
+LONG_MN = [('ld', 'ld.immediate'), ('jmp', 'jmp.ifcarryset'), ('st', 'st.byte_indexed'), ('add', 'add.with_carry_in'), ('mov', 'mov.l.extended')]
+LONG_MAC = [('push2', 'push2.extended'), ('mac', 'mac.accumulate16'), ('m', 'm.longer_than_ten')]
+LONG_REG = [('r1', 'r1_shadow_bank'), ('sp', 'sp_supervisor0'), ('a', 'a_accumulator')]
+
+
 def gen_case(rng, tier):
     mns = rng.sample(MN_POOL, rng.randint(1, 7))
     macs = rng.sample([m for m in MAC_POOL if m not in mns], rng.choice([0, 0, 1, 2, 3]))
     regs = rng.sample([r for r in REG_POOL if r not in mns and r not in macs], rng.choice([0, 1, 2, 4, 5]))
+    if rng.random() < 0.3:
+        for pool, target in ((LONG_MN, mns), (LONG_MAC, macs), (LONG_REG, regs)):
+            if rng.random() < 0.6:
+                short, long_ = rng.choice(pool)
+                for nm in (short, long_):
+                    if nm not in mns and nm not in macs and nm not in regs:
+                        target.insert(rng.randint(0, len(target)), nm)
     pre = rng.sample(PRE_POOL, rng.choice([0, 0, 1, 2, 3]))
     isa = {'description': 'c20 test isa', 'general': {'address_size': 16, 'endian': 'big', 'registers': regs,
                                                        'identifier': {'name': rng.choice(['tlang', 'my-isa', 'cpu8']), 'version': '1.0.0',
